@@ -656,6 +656,8 @@ def seeded_for(pid):
         mp = os.path.join(root, d, "meta.json")
         if os.path.exists(mp):
             meta = json.load(open(mp))
+            if meta.get("known_unreported"):
+                continue  # a confirmed change the rules do not reach (recorded in DESIGN.md 11.6): not part of the sensitivity gate
             if meta.get("property") == pid or pid in meta.get("also_breaks", []):
                 out.append((d, os.path.join(root, d, "patch.diff")))
     return out
